@@ -72,3 +72,15 @@ Proof.
   rewrite <- (build_end_agrees r0 H).
   destruct (build_start_agrees r0 H) as [_ E]. rewrite E. reflexivity.
 Qed.
+
+(* what each binder of the generated definitions stands for in the source (third audit, F2): a function that starts
+   reading another field or index changes coq/gen/Leaf.v only in these lists *)
+From Coq Require Import List String.
+Import ListNotations.
+Lemma leaf_reads_relocs :
+  L_base_relocs_Block_rva_of_args = ["self.image.VirtualAddress : u32"%string; "word : u16"%string] /\
+  L_base_relocs_Block_type_of_args = ["word : u16"%string] /\
+  L_base_relocs_encode_type_offset_args = ["base : u32"%string; "rva : u32"%string; "ty : u8"%string] /\
+  L_base_relocs_build__start_args = ["rvas[0] : u32"%string] /\
+  L_base_relocs_build__end_args = ["rvas[0] : u32"%string].
+Proof. repeat split; reflexivity. Qed.
